@@ -53,6 +53,14 @@ def run(c):
         rc, out = c.go_run(binary, [f"-n={c.n(6000, 150000)}"])
         c.harness_ok(rc, out, "verif-c28")
         c.correspond(out, drv)
+    if binary and c.tier == "thorough":
+        # purity / reentrancy of String() once more under the Go race detector: a printer that writes to the tree, even
+        # transiently, is a data race between the printing goroutines (exit status 66, "WARNING: DATA RACE")
+        rbin = c.go_build(HARNESS, name="verif-c28-race", race=True)
+        if rbin:
+            rc, out = c.go_run(rbin, ["-mode=reentrancy", "-n=20000"])
+            c.harness_ok(rc, out, "verif-c28 -race (String() must not write to the tree)")
+            c.collect(out, label="reentrancy")
 
     def search():
         if not binary:
@@ -102,7 +110,11 @@ META = {
              "seconds -> ms (atms) are replayed "
              "on the compiled models; the hypotheses tokOk (line `lex`) and wf (line `wf`) are evaluated by the driver on every "
              "real token stream / returned tree."),
-    "note": ("Partial: the two library contracts strconv.Quote/strutil.Unquote and fmt.Sprint(float64)/number (ParseInt, "
+    "note": ("Purity / reentrancy of String(): the model's printer is a function Expr -> tokens, pure by construction; that the real "
+             "String() is one too (never writes to the tree, not even transiently) is a correspondence obligation, discharged by "
+             "the oracle printer-mutates-tree / print-not-reentrant (4 goroutines printing the same tree + a watcher, for every "
+             "accepted tree with a range selector carrying @/offset modifiers) and, in the thorough tier, by the Go race detector. "
+             "Partial: the two library contracts strconv.Quote/strutil.Unquote and fmt.Sprint(float64)/number (ParseInt, "
              "ParseFloat) are explicit hypotheses of string_token_roundtrip / number_literal_roundtrip, discharged by the "
              "round-trip oracle only; the lexical theorems are per token class and per lexer step: a character-level model of "
              "the printer's spacing and the induction chaining the steps over a whole printed expression (lexAll(printText e) = "
